@@ -44,9 +44,49 @@ func c11Valid(b []byte) bool {
 	return true
 }
 
+// c11RefForce is a reference normaliser written from the rules documented above ValidStringValue:
+// 1. trim unicode whitespace left and right, 2. replace runs of unicode whitespace inside by one ASCII
+// space, 3. cut to 128 bytes without splitting a rune, 4. non-printable runes (and, when forcing, invalid
+// bytes) become U+FFFD.
+func c11RefForce(b []byte) string {
+	var out []rune
+	prevSpace := true
+	for i := 0; i < len(b); {
+		r, n := utf8.DecodeRune(b[i:])
+		i += n
+		switch {
+		case unicode.IsSpace(r):
+			if prevSpace {
+				continue
+			}
+			out = append(out, ' ')
+			prevSpace = true
+			continue
+		case !unicode.IsPrint(r):
+			r = utf8.RuneError
+		}
+		out = append(out, r)
+		prevSpace = false
+	}
+	var res []byte
+	for _, r := range out {
+		if len(res)+utf8.RuneLen(r) > 128 {
+			break
+		}
+		res = utf8.AppendRune(res, r)
+	}
+	if n := len(res); n > 0 && res[n-1] == ' ' {
+		res = res[:n-1]
+	}
+	return string(res)
+}
+
 func c11PropStr(t vpT, c c11Str) (nontrivial bool) {
 	in := append([]byte(nil), c.B...)
 	v := ForceValidStringValue(string(in))
+	if ref := c11RefForce(c.B); v != ref {
+		t.Fatalf("forced value %q of %q (%d bytes) differs from the documented normalisation %q", v, c.B, len(c.B), ref)
+	}
 	if !bytes.Equal(in, c.B) {
 		t.Fatalf("input mutated")
 	}
@@ -94,9 +134,26 @@ var c11Pieces = []string{
 
 func c11GenStr() *rapid.Generator[c11Str] {
 	return rapid.Custom(func(t *rapid.T) c11Str {
-		mode := rapid.IntRange(0, 9).Draw(t, "mode")
+		mode := rapid.IntRange(0, 10).Draw(t, "mode")
 		if mode == 0 {
 			return c11Str{B: rapid.SliceOfN(rapid.Byte(), 0, 300).Draw(t, "raw")}
+		}
+		if mode == 10 { // long inputs: short content separated / padded by long whitespace runs
+			var b []byte
+			n := rapid.IntRange(1, 6).Draw(t, "chunks")
+			for i := 0; i < n; i++ {
+				pad := rapid.IntRange(0, 700).Draw(t, "pad")
+				ws := rapid.SampledFrom([]string{" ", "\t", "\n", "\u00a0", "\u2003", "\u3000"}).Draw(t, "ws")
+				for len(ws) > 0 && pad > 0 {
+					b = append(b, ws...)
+					pad -= len(ws)
+				}
+				k := rapid.IntRange(0, 12).Draw(t, "k")
+				for j := 0; j < k; j++ {
+					b = append(b, rapid.SampledFrom(c11Pieces).Draw(t, "piece")...)
+				}
+			}
+			return c11Str{B: b}
 		}
 		var target int
 		switch rapid.IntRange(0, 3).Draw(t, "lenclass") {
@@ -135,6 +192,9 @@ func TestVerifC11Str(t *testing.T) {
 			cls := []string{}
 			if len(c.B) > 128 {
 				cls = append(cls, "longer-than-128")
+			}
+			if len(c.B) > 512 {
+				cls = append(cls, "longer-than-512")
 			}
 			if !utf8.Valid(c.B) {
 				cls = append(cls, "invalid-utf8")
@@ -291,6 +351,8 @@ func FuzzVerifC11Str(f *testing.F) {
 		f.Add([]byte(p))
 		f.Add([]byte(strings.Repeat("a", 126) + p + "b"))
 		f.Add([]byte(strings.Repeat("a", 120) + " " + p + p + " "))
+		f.Add([]byte("a" + strings.Repeat(" ", 509) + p + "tail"))
+		f.Add([]byte(strings.Repeat("\u3000", 171) + p + "x"))
 	}
 	f.Fuzz(func(t *testing.T, b []byte) { c11PropStr(t, c11Str{B: b}) })
 }
